@@ -453,3 +453,15 @@ impl<'w, 's, T: EntityWorldReactor> EntityLocal<'w, 's, T>
 }
 
 //-------------------------------------------------------------------------------------------------------------------
+
+#[cfg(feature = "verif")]
+impl EntityReactionAccessTracker
+{
+    /// Returns (number of prepared entries, currently reacting).
+    pub(crate) fn verif_state(&self) -> (usize, bool)
+    {
+        (self.prepared.len(), self.currently_reacting)
+    }
+}
+
+//-------------------------------------------------------------------------------------------------------------------
